@@ -431,15 +431,34 @@ pub trait AsView: Layout {
         }
 
         let items = range.into_slice_items();
+        assert!(
+            items.as_ref().len() <= self.ndim(),
+            "slice failed: {} items for tensor with {} dims",
+            items.as_ref().len(),
+            self.ndim()
+        );
         let sliced_shape: Vec<_> = items
             .as_ref()
             .iter()
             .copied()
             .enumerate()
             .filter_map(|(dim, item)| match item {
-                SliceItem::Index(_) => None,
+                SliceItem::Index(idx) => {
+                    let size = self.size(dim) as isize;
+                    let pos = if idx < 0 { idx + size } else { idx };
+                    assert!(
+                        pos >= 0 && pos < size,
+                        "slice failed: index {} out of bounds for axis {} of size {}",
+                        idx,
+                        dim,
+                        size
+                    );
+                    None
+                }
                 SliceItem::Range(range) => Some(range.index_range(self.size(dim)).steps()),
             })
+            // Dimensions not covered by `range` are retained in full.
+            .chain((items.as_ref().len()..self.ndim()).map(|dim| self.size(dim)))
             .collect();
         let sliced_len = sliced_shape.iter().product();
         let mut sliced_data = pool.alloc(sliced_len);
